@@ -300,13 +300,12 @@ func snapFile(dir string, index uint64) string {
 
 // findSnapshots returns list of snapshots from latest to oldest
 func findSnapshots(dir string) ([]uint64, error) {
-	matches, err := filepath.Glob(filepath.Join(dir, "*.meta"))
+	matches, err := filesWithExt(dir, ".meta")
 	if err != nil {
 		return nil, err
 	}
 	var snaps []uint64
 	for _, m := range matches {
-		m = filepath.Base(m)
 		m = strings.TrimSuffix(m, ".meta")
 		i, err := strconv.ParseUint(m, 10, 64)
 		if err != nil {
